@@ -823,4 +823,29 @@ example : NamesNodup (finalState (newAlign 1) [.add "a" [65, 45], .add "a" [45, 
   run_names_nodup _ _ (inv_newAlign 1) (rect_of_empty_align 1) (by simp [NamesNodup, newAlign])
     (by simp [NameEdit]) (by simp [HistWF, OpWF]) (by simp [HistRectOK, RectOK])
 
+-- the in-place residue operations in a history: `ReverseComplementSequences` on a name given twice, an unknown name and
+-- a second name; `DiffWithFirst` and back with `ReplaceMatchChars`; `Mask` of a window with the gap protected;
+-- `MaskUnique` without reference
+def demoHist4 : List Op :=
+  [.add "a" [65, 67, 71, 84], .add "b" [65, 67, 45, 65], .add "c" [65, 84, 71, 84],
+   .revcompSeqs ["a", "zz", "a", "b"], .revcompSeqs ["b"], .diffFirst, .replaceMatch,
+   .mask "" 1 2 .ambig true false, .maskOcc "" 1 (.char 88)]
+
+set_option maxRecDepth 100000 in
+example : ∃ s' sts, specRun (abs (newAlign 1)) demoHist4 = some (s', sts) ∧
+    abs (finalState (newAlign 1) demoHist4) = s' ∧ (runOps (newAlign 1) demoHist4).map (·.2) = sts ∧
+    s'.rows = [("a", [65, 78, 78, 84]), ("b", [65, 78, 45, 88]), ("c", [65, 78, 78, 84])] ∧
+    sts = ["ok", "ok", "ok", "ok", "ok", "ok", "ok", "ok", "ok"] := by
+  have hsome : (specRun (abs (newAlign 1)) demoHist4).isSome = true := by decide
+  cases h : specRun (abs (newAlign 1)) demoHist4 with
+  | none => rw [h] at hsome; cases hsome
+  | some r =>
+    have := run_refines demoHist4 _ (good_of_empty_align 1) (by simp [demoHist4, HistWFR, OpWFR]) r.1 r.2 h
+    have h2 : (specRun (abs (newAlign 1)) demoHist4).map (fun r => (r.1.rows, r.2)) =
+        some ([("a", [65, 78, 78, 84]), ("b", [65, 78, 45, 88]), ("c", [65, 78, 78, 84])],
+          ["ok", "ok", "ok", "ok", "ok", "ok", "ok", "ok", "ok"]) := by decide
+    rw [h] at h2
+    simp only [Option.map_some, Option.some.injEq, Prod.mk.injEq] at h2
+    exact ⟨r.1, r.2, rfl, this.1, this.2.1, h2.1, h2.2⟩
+
 end Gv.Props.C01
